@@ -78,6 +78,9 @@ pub enum Mode {
     Plain,
     /// retry with 2 attempts / hedge with 2 parallel attempts / reconnect with 1 retry
     Multiply,
+    /// non-triggering, but with extreme-yet-valid settings (Duration::MAX timeouts, waits,
+    /// delays and TTLs, very large limits): "never" must really mean never, not a panic
+    Extreme,
 }
 
 pub struct Listeners {
@@ -133,6 +136,9 @@ pub fn build<S: Inner>(mw: Mw, mode: Mode, inner: S, ls: Option<Arc<Listeners>>)
         Mw::Bulkhead => {
             use tower_resilience_bulkhead::{BulkheadLayer, BulkheadServiceError};
             let mut b = BulkheadLayer::builder().max_concurrent_calls(10);
+            if mode == Mode::Extreme {
+                b = b.max_concurrent_calls(1_000_000).max_wait_duration(Duration::MAX);
+            }
             if let Some(ls) = &ls {
                 for i in 0..3 {
                     let (h1, h2, h3) = (ls.hook(i), ls.hook(i), ls.hook(i));
@@ -147,6 +153,9 @@ pub fn build<S: Inner>(mw: Mw, mode: Mode, inner: S, ls: Option<Arc<Listeners>>)
         Mw::RateLimiter => {
             use tower_resilience_ratelimiter::{RateLimiterLayer, RateLimiterServiceError};
             let mut b = RateLimiterLayer::builder().limit_for_period(1000).refresh_period(Duration::from_secs(1)).timeout_duration(Duration::ZERO);
+            if mode == Mode::Extreme {
+                b = b.limit_for_period(1_000_000).refresh_period(Duration::from_secs(86_400 * 365)).timeout_duration(Duration::MAX);
+            }
             if let Some(ls) = &ls {
                 for i in 0..3 {
                     let (h1, h2) = (ls.hook(i), ls.hook(i));
@@ -161,6 +170,9 @@ pub fn build<S: Inner>(mw: Mw, mode: Mode, inner: S, ls: Option<Arc<Listeners>>)
         Mw::CircuitBreaker | Mw::CircuitBreakerWithFallback => {
             use tower_resilience_circuitbreaker::{CircuitBreakerError, CircuitBreakerLayer};
             let mut b = CircuitBreakerLayer::builder().sliding_window_size(100).failure_rate_threshold(0.9);
+            if mode == Mode::Extreme {
+                b = b.sliding_window_size(1_000_000).wait_duration_in_open(Duration::MAX).slow_call_duration_threshold(Duration::MAX).permitted_calls_in_half_open(usize::MAX);
+            }
             if let Some(ls) = &ls {
                 for i in 0..3 {
                     let (h1, h2, h3) = (ls.hook(i), ls.hook(i), ls.hook(i));
@@ -189,6 +201,7 @@ pub fn build<S: Inner>(mw: Mw, mode: Mode, inner: S, ls: Option<Arc<Listeners>>)
             b = match mode {
                 Mode::Plain => b.max_attempts(1),
                 Mode::Multiply => b.max_attempts(2),
+                Mode::Extreme => b.max_attempts(usize::MAX).fixed_backoff(Duration::MAX).retry_on(|_e: &InnerErr| false),
             };
             if let Some(ls) = &ls {
                 for i in 0..3 {
@@ -200,7 +213,7 @@ pub fn build<S: Inner>(mw: Mw, mode: Mode, inner: S, ls: Option<Arc<Listeners>>)
         }
         Mw::TimeLimiter | Mw::TimeLimiterBackground => {
             use tower_resilience_timelimiter::{TimeLimiterError, TimeLimiterLayer};
-            let mut b = TimeLimiterLayer::builder().timeout_duration(Duration::from_secs(10)).cancel_running_future(mw == Mw::TimeLimiter);
+            let mut b = TimeLimiterLayer::builder().timeout_duration(if mode == Mode::Extreme { Duration::MAX } else { Duration::from_secs(10) }).cancel_running_future(mw == Mw::TimeLimiter);
             if let Some(ls) = &ls {
                 for i in 0..3 {
                     let (h1, h2) = (ls.hook(i), ls.hook(i));
@@ -215,6 +228,9 @@ pub fn build<S: Inner>(mw: Mw, mode: Mode, inner: S, ls: Option<Arc<Listeners>>)
         Mw::Cache => {
             use tower_resilience_cache::{CacheError, CacheLayer};
             let mut b = CacheLayer::<Req, u32>::builder().max_size(100).key_extractor(|r: &Req| r.id);
+            if mode == Mode::Extreme {
+                b = b.max_size(50_000).ttl(Duration::MAX);
+            }
             if let Some(ls) = &ls {
                 for i in 0..3 {
                     let (h1, h2) = (ls.hook(i), ls.hook(i));
@@ -246,6 +262,8 @@ pub fn build<S: Inner>(mw: Mw, mode: Mode, inner: S, ls: Option<Arc<Listeners>>)
             b = match mode {
                 Mode::Plain => b.max_hedged_attempts(1),
                 Mode::Multiply => b.max_hedged_attempts(2),
+                // a hedge that is never due: the primary's answer is the answer
+                Mode::Extreme => b.delay(Duration::MAX).max_hedged_attempts(1),
             };
             if let Some(ls) = &ls {
                 for i in 0..3 {
@@ -265,12 +283,17 @@ pub fn build<S: Inner>(mw: Mw, mode: Mode, inner: S, ls: Option<Arc<Listeners>>)
             let cfg = match mode {
                 Mode::Plain => ReconnectConfig::builder().policy(ReconnectPolicy::fixed(Duration::from_millis(1))).max_attempts(1).reconnect_predicate(|_e: &dyn std::error::Error| false).build(),
                 Mode::Multiply => ReconnectConfig::builder().policy(ReconnectPolicy::fixed(Duration::from_millis(1))).max_attempts(1).build(),
+                Mode::Extreme => ReconnectConfig::builder().policy(ReconnectPolicy::fixed(Duration::MAX)).max_attempts(u32::MAX).reconnect_predicate(|_e: &dyn std::error::Error| false).build(),
             };
             erase(ReconnectLayer::new(cfg).layer(inner), |e| map_std_err(e, &["service error", "max reconnection attempts", "connection failed"]))
         }
         Mw::Adaptive => {
             use tower_resilience_adaptive::{AdaptiveError, AdaptiveLimiterLayer, Aimd};
-            let a = Aimd::builder().initial_limit(10).min_limit(5).max_limit(20).build();
+            let a = if mode == Mode::Extreme {
+                Aimd::builder().initial_limit(10).min_limit(1).max_limit(1_000_000).latency_threshold(Duration::MAX).build()
+            } else {
+                Aimd::builder().initial_limit(10).min_limit(5).max_limit(20).build()
+            };
             erase(AdaptiveLimiterLayer::new(a).layer(inner), |e| match e {
                 AdaptiveError::Service(e) => EOut::PassThrough(e),
                 AdaptiveError::LimitReached => EOut::Layer("limit".into()),
@@ -290,6 +313,9 @@ pub fn build<S: Inner>(mw: Mw, mode: Mode, inner: S, ls: Option<Arc<Listeners>>)
         Mw::Chaos => {
             use tower_resilience_chaos::ChaosLayer;
             let mut b = ChaosLayer::builder().error_rate(0.0).error_fn(|_r: &Req| InnerErr { id: 4242, kind: 7 }).latency_rate(0.0).seed(1);
+            if mode == Mode::Extreme {
+                b = b.seed(u64::MAX).min_latency(Duration::MAX).max_latency(Duration::MAX);
+            }
             if let Some(ls) = &ls {
                 for i in 0..3 {
                     let (h1, h2) = (ls.hook(i), ls.hook(i));
